@@ -21,6 +21,14 @@ CHECKS = {
   text="Seeded search over call histories on one long-lived simulated caller thread; every call's full result digest (text, every origin, define table, tree with offsets, or error) must equal the same call on a fresh thread against the same file-system snapshot. Sampling, not proof: evidence reports histories run, residue/address-reuse probes and fault kinds fired.",
   note="Trusts: hooks faithful (repo tests pass guard on/off); slot device decides address reuse for caller-owned texts only; library-internal RandomState unseeded; digests cover what the public API exposes.",
   tech="deterministic simulation: seeded call histories vs fresh-thread reference, simulated file system with per-call fault plan"),
+"C09": dict(cat="exploration", ref="§6 C09",
+  text="The structured recursion family (8 mechanisms x cycles of length 1..8 and chains of depth 1..80) is enumerated completely in both tiers, with sampled decorations and caller stack sizes 2/8/256 MiB; bounded progress is decided by step and open budgets, stack exhaustion by the death of the worker process. Exhaustive over the family, sampling over decorations.",
+  note="Trusts: hooks faithful; FileScope/MacroScope probes report true nesting; a 2 MiB caller stack is the smallest in the claim; exponential fan-out chains are outside the family.",
+  tech="deterministic simulation: enumerated include/macro recursion graphs on a simulated file system, step/open budgets as progress measure, process-level crash containment, stack-size knob"),
+"C19": dict(cat="exploration", ref="§6 C19",
+  text="Seeded search over interleavings of 2-4 simulated caller threads (real OS threads parked and released one at a time at every grammar terminal, parser-state mutation and file operation; random, PCT and mutation-biased policies); every call must return what it returns when its thread's program runs alone. Failing schedules are frozen to an explicit switch list and minimised.",
+  note="Trusts: hooks faithful; every write to thread-local parser state is preceded by a yield point; the scheduler serialises execution, so data-race UB itself (as opposed to its logical effect) is not observable.",
+  tech="deterministic simulation: seeded baton scheduler over real threads, recorded/replayable switch lists, solo-run reference"),
 "C20": dict(cat="exploration", ref="§6 C20",
   text="Seeded search over programs on the simulated file system x flag combinations; the file, string and two-step entry points of a group must return identical digests while the file side receives its bytes through short reads and EINTR and all calls meet the same missing/non-UTF-8 includes.",
   note="Trusts: hooks faithful; Vfs read semantics model POSIX read(2); each call on a fresh thread so C07 effects are excluded.",
